@@ -912,3 +912,145 @@ Section InvB.
     - (* AClose *) apply (invB_frame tr s); auto; step_inv Hst; auto.
   Qed.
 End InvB.
+
+(* ---- the theorems about every run ------------------------------------------------------------ *)
+
+Lemma exec_dpos sc tr : forall s s', exec sc s tr = Some s' -> (dpos (s_disp s) <= dpos (s_disp s'))%nat.
+Proof.
+  induction tr as [|a tr IH]; simpl; intros s s' H; [inversion H; lia|].
+  destruct (step sc s a) as [s1|] eqn:E; [|discriminate].
+  apply step_dpos in E. apply IH in H. lia.
+Qed.
+
+Lemma is_start_in n h tr : (0 < cnt (is_start n h) tr)%nat <-> In (AStart n h) tr.
+Proof.
+  split.
+  - intros H. apply cnt_pos_in in H as [a [Hi Hp]]. destruct a; simpl in Hp; try discriminate.
+    apply Bool.andb_true_iff in Hp as [Hn Hh]. apply Nat.eqb_eq in Hn. apply N.eqb_eq in Hh.
+    subst. exact Hi.
+  - intros H. apply (in_cnt_pos _ _ _ H). simpl. rewrite Nat.eqb_refl, N.eqb_refl. reflexivity.
+Qed.
+
+Lemma is_end_in n h tr : (0 < cnt (is_end n h) tr)%nat <-> exists o, In (AEnd n h o) tr.
+Proof.
+  split.
+  - intros H. apply cnt_pos_in in H as [a [Hi Hp]]. destruct a; simpl in Hp; try discriminate.
+    apply Bool.andb_true_iff in Hp as [Hn Hh]. apply Nat.eqb_eq in Hn. apply N.eqb_eq in Hh.
+    subst. eauto.
+  - intros [o H]. apply (in_cnt_pos _ _ _ H). simpl. rewrite Nat.eqb_refl, N.eqb_refl. reflexivity.
+Qed.
+
+Section Theorems.
+  Variable sc : scenario.
+  Hypothesis Hwf : wf_sc sc.
+  Notation decl := (sc_decl sc).
+
+  Lemma inv_run tr s : exec sc (init sc) tr = Some s -> InvA sc tr s /\ InvB sc tr s.
+  Proof.
+    revert tr s. apply run_ind.
+    - split; [apply invA_init|apply invB_init]; exact Hwf.
+    - intros tr s a s' _ [HA HB] Hst. split.
+      + eapply invA_step; eauto.
+      + eapply invB_step; eauto.
+  Qed.
+
+  (* C06_exactly_once: for every schedule, event n starts handler h at most once; it starts
+     it only if the snapshot of h's phase found h registered (and h is routed to that
+     phase: registered for the event's command or "*", echo => "*" only); and a snapshot
+     that found h registered and routed does start it — the goroutine is started already
+     or is one of the goroutines still waiting to be scheduled. *)
+  Theorem exactly_once tr s n h :
+    exec sc (init sc) tr = Some s ->
+    (cnt (is_start n h) tr <= 1)%nat /\
+    (In (AStart n h) tr ->
+       exists tr1 k tr2, tr = tr1 ++ ASnap n k :: tr2 /\ In h (reg_of sc tr1) /\
+                         route decl h (ev_at sc n) = Some k) /\
+    (forall tr1 k tr2, tr = tr1 ++ ASnap n k :: tr2 -> In h (reg_of sc tr1) ->
+       route decl h (ev_at sc n) = Some k ->
+       (cnt (is_start n h) tr + s_sp s n h + s_sg s n h = 1)%nat).
+  Proof.
+    intros Hrun. destruct (inv_run tr s Hrun) as [HA HB].
+    pose proof (b_c1 _ _ _ HB n h) as H1. destruct (b_c3 _ _ _ HB n h) as [H3 _].
+    split; [lia|split].
+    - intros Hi. apply is_start_in in Hi. apply spawned_pos_split. lia.
+    - intros tr1 k tr2 -> Hi Hr. pose proof (spawned_split_pos sc tr1 k tr2 n h Hi Hr). lia.
+  Qed.
+
+  (* a foreground goroutine of event n exists only while the dispatcher waits in a phase of n *)
+  Lemma fg_past tr s n h :
+    exec sc (init sc) tr = Some s -> is_bgh sc h = false ->
+    (9 * S n <= dpos (s_disp s))%nat ->
+    cnt (is_start n h) tr = cnt (is_end n h) tr.
+  Proof.
+    intros Hrun Hfg Hpos. destruct (inv_run tr s Hrun) as [HA HB].
+    destruct (b_fg _ _ _ HB n h Hfg) as [H1 _]. pose proof (b_c2 _ _ _ HB n h) as H2.
+    assert (outc s n h = 0)%nat as Hz.
+    { unfold outc. destruct (s_disp s) as [| |n' k out] eqn:Ed; auto.
+      destruct (Nat.eqb n' n) eqn:En; auto. apply Nat.eqb_eq in En. subst n'.
+      simpl in Hpos. pose proof (Nat.le_min_r k 3). lia. }
+    lia.
+  Qed.
+
+  Lemma fg_start_pos s n h s' :
+    step sc s (AStart n h) = Some s' -> is_bgh sc h = false -> (dpos (s_disp s) < 9 * S n)%nat.
+  Proof.
+    intros Hst Hfg. unfold step in Hst. destruct (s_crashed s); [discriminate|].
+    rewrite Hfg in Hst. destruct (s_disp s) as [| |n' k out]; try discriminate.
+    destruct (Nat.eqb n n') eqn:En; simpl in Hst; [|discriminate].
+    apply Nat.eqb_eq in En. subst n'. simpl. pose proof (Nat.le_min_r k 3). lia.
+  Qed.
+
+  (* once the dispatcher is past event n, every foreground handler started for n has ended,
+     and none is started later *)
+  Lemma fg_ended_before tr1 tr2 s1 s n h :
+    exec sc (init sc) tr1 = Some s1 -> exec sc s1 tr2 = Some s ->
+    (9 * S n <= dpos (s_disp s1))%nat -> is_bgh sc h = false ->
+    In (AStart n h) (tr1 ++ tr2) -> exists o, In (AEnd n h o) tr1.
+  Proof.
+    intros H1 H2 Hpos Hfg Hin.
+    assert (In (AStart n h) tr1) as Hin1.
+    { apply in_app_iff in Hin as [Hin|Hin]; [exact Hin|]. exfalso.
+      apply in_split in Hin as [u [v ->]].
+      apply exec_prefix in H2 as [s2 [Hu Hv]]. simpl in Hv.
+      destruct (step sc s2 (AStart n h)) as [s3|] eqn:Est; [|discriminate].
+      pose proof (fg_start_pos _ _ _ _ Est Hfg). pose proof (exec_dpos _ _ _ _ Hu). lia. }
+    apply is_end_in. rewrite <- (fg_past tr1 s1 n h H1 Hfg Hpos). apply is_start_in. exact Hin1.
+  Qed.
+
+  (* C06_ordered: every foreground handler started for event n has returned before
+     execLoop takes event n+1 *)
+  Theorem ordered tr1 tr2 s n h :
+    exec sc (init sc) (tr1 ++ ADeliver (S n) :: tr2) = Some s ->
+    is_bgh sc h = false ->
+    In (AStart n h) (tr1 ++ ADeliver (S n) :: tr2) ->
+    exists o, In (AEnd n h o) tr1.
+  Proof.
+    intros Hrun Hfg Hin. apply exec_prefix in Hrun as [s1 [H1 H2]].
+    apply (fg_ended_before tr1 (ADeliver (S n) :: tr2) s1 s n h H1 H2); auto.
+    simpl in H2. destruct (step sc s1 (ADeliver (S n))) as [s2|] eqn:Est; [|discriminate].
+    unfold step in Est. destruct (s_crashed s1); [discriminate|].
+    destruct (s_disp s1) as [m| |]; try discriminate.
+    destruct (Nat.eqb (S n) m) eqn:En; simpl in Est; [|discriminate].
+    apply Nat.eqb_eq in En. subst m. simpl. lia.
+  Qed.
+
+  (* the same, between what handlers see: before any handler is started for a later event *)
+  Theorem ordered_starts tr1 tr2 s n m h h' :
+    exec sc (init sc) (tr1 ++ AStart m h' :: tr2) = Some s ->
+    (n < m)%nat -> is_bgh sc h = false ->
+    In (AStart n h) (tr1 ++ AStart m h' :: tr2) ->
+    exists o, In (AEnd n h o) tr1.
+  Proof.
+    intros Hrun Hnm Hfg Hin.
+    replace (tr1 ++ AStart m h' :: tr2) with ((tr1 ++ [AStart m h']) ++ tr2) in Hrun, Hin
+      by (rewrite <- app_assoc; reflexivity).
+    apply exec_prefix in Hrun as [s1 [H1 H2]].
+    assert (9 * S n <= dpos (s_disp s1))%nat as Hpos.
+    { destruct (inv_run _ _ H1) as [HA HB].
+      pose proof (b_c1 _ _ _ HB m h') as Hc1. destruct (b_c3 _ _ _ HB m h') as [_ Hc3].
+      rewrite cnt_snoc in Hc1. simpl in Hc1. rewrite Nat.eqb_refl, N.eqb_refl in Hc1. simpl in Hc1.
+      destruct Hc3 as [k [_ Hk]]; lia. }
+    destruct (fg_ended_before _ _ _ _ n h H1 H2 Hpos Hfg Hin) as [o Ho].
+    apply in_app_iff in Ho as [Ho|[Ho|[]]]; [eauto|discriminate].
+  Qed.
+End Theorems.
